@@ -7,6 +7,8 @@ import PystogVerif.Vec
 class Rint (α : Type) where
   rint : α → α
   floor : α → α
+  /-- Python's `int(x)` for x ≥ 0 (truncation = floor), as a natural number -/
+  toNat : α → Nat
 
 /-- IEEE round-half-even built from `floor` (Lean's `Float.round` rounds half away from zero) -/
 def Float.rintHalfEven (x : Float) : Float :=
@@ -16,7 +18,7 @@ def Float.rintHalfEven (x : Float) : Float :=
   else if d > 0.5 then f + 1.0
   else if (f / 2.0).floor * 2.0 == f then f else f + 1.0
 
-instance : Rint Float := ⟨Float.rintHalfEven, Float.floor⟩
+instance : Rint Float := ⟨Float.rintHalfEven, Float.floor, fun x => x.toUInt64.toNat⟩
 
 section
 variable {α : Type} [Add α] [Sub α] [Mul α] [Div α] [Neg α] [LT α] [LE α] [NatCast α]
